@@ -37,6 +37,8 @@ CHECKS = {
          "held on everything observed: 60 (quick) / 600 (thorough) multi-file projects x 12/48 schedules x 4/8 transformations; evidence reports how many distinct outputs and declaration orders were actually seen (1 per project when the property holds)", "4 C13"),
  "C14": ("exploration", "runtime monitor (filesystem): snapshot of bytes/mtime_ns/inode around the second run plus strace log of mutating syscalls; forced runs from five cache states observed by content and mtime",
          "held on everything observed: 80 (quick) / 800 (thorough) projects of 1-6 files with 0-3 type mappings x CLI and build-script path x 3/12 unchanged re-runs under other hash seeds, and --force / force:true from absent, matching, mismatching, corrupt and wrong-version caches", "4 C14"),
+ "C15": ("exploration", "runtime monitor (exit/abort + differential): real CLI and library entry point (catch_unwind) on generated exotic Rust, fuzzed attribute payloads, a real-world corpus and its mutations, and non-Rust text; failing batches bisected to one input; project vs project+unparsable-file comparison",
+         "held on everything observed: 3 300 generated + 1 500 corpus + 1 450 mutated corpus inputs + 66 non-Rust + 150 isolation projects in quick; thorough: 20 000 generated, every .rs file of the repository, the offline registry and the toolchains (~13 000), 40 000 mutants, 1 500 isolation projects", "4 C15"),
  "C18": ("exploration", "runtime monitor (differential + reference): each project generated by the real CLI with and without the mapping table; mapped positions compared with the reference denotation, identifier scan for leftovers, declaration-multiset diff of everything else",
          "held on everything observed: 10 single-entry tables (plain and generic names) + 6 (quick) / 40 (thorough) multi-entry tables x ~60 constructor positions x 5 sites x 2 modes, with near-miss-named unrelated declarations in every project", "4 C18"),
  "C20": ("exploration", "runtime monitor: real ordering routines driven over enumerated graphs, each result judged by a closure/SCC oracle; crash = replayed and bisected",
